@@ -240,6 +240,7 @@ static void run_child(char *spec) {
 
 int main(void) {
     setvbuf(stdout, NULL, _IOLBF, 0);
+    ops_crystal_file = getenv("XRL_CRYSTALS_FILE");
     const char *loc = getenv("XDRV_LOCALE"); if (loc && *loc && !setlocale(LC_ALL, loc)) { fprintf(stderr, "cannot set locale\n"); return 5; }
     XRayInit();
     char *line = NULL; size_t cap = 0;
